@@ -49,6 +49,7 @@ def setup(rep, tier):
     rep.minimum('R03.3', 9)
     rep.minimum('R03.5', 12)
     rep.minimum('R03.6', 6)
+    rep.minimum('R03.7', 2)
     rep.minimum('R03.4', 2)
     rep.trusted.append('doc/draft-ietf-codec-opus.xml (RFC 6716 source text) as the table oracle')
 
@@ -522,6 +523,42 @@ def r03_6(rep, prog):
         rep.unresolved('R03.6', 'only %d PCM pointer offsets found in the decoder frame assembly' % n)
 
 
+def r03_7(rep, prog):
+    """unrolled symmetric FIR filters of the SILK down-sampler: every tap pair
+    buf[a] + buf[b] that shares a coefficient satisfies a + b = order - 1, and
+    the coefficient index is the smaller tap (linear phase); a mispaired tap
+    changes the decoded PCM at exactly one output rate"""
+    fname = 'silk_resampler_private_down_FIR_INTERPOL'
+    if not prog.has_fn(fname):
+        rep.unresolved('R03.7', '%s not found' % fname)
+        return
+    f = prog.fn(fname)
+    rep.functions.add(fname)
+    cf = cfgm.CFG(f)
+    groups = {}
+    for b, i, n in cf.find(lambda n: n[0] == 'bin' and n[1] == '+' and not sx.A(n).get('ptr')):
+        l, r = sx.strip(n[2]), sx.strip(n[3])
+        if sx.kind(l) == 'idx' and sx.kind(r) == 'idx' and sx.key(sx.strip(l[1])) == sx.key(sx.strip(r[1])) and sx.int_val(l[2]) is not None and sx.int_val(r[2]) is not None:
+            groups.setdefault(b, []).append((sx.int_val(l[2]), sx.int_val(r[2]), sx.line(n)))
+    if len(groups) < 2:
+        rep.unresolved('R03.7', 'expected two unrolled symmetric FIR loops in %s, found %d' % (fname, len(groups)))
+        return
+    for b, pairs in sorted(groups.items()):
+        sums = {}
+        for a, c, ln in pairs:
+            sums.setdefault(a + c, []).append((a, c, ln))
+        order = max(len(pairs) * 2, 1)
+        inst = '%s:%s %d-tap symmetric FIR pairs taps a and %d-a' % (prog.config, fname, order, order - 1)
+        where = '%s:%s' % (f.file, pairs[0][2])
+        lows = sorted(min(a, c) for a, c, ln in pairs)
+        if len(sums) == 1 and list(sums)[0] == order - 1 and lows == list(range(order // 2)):
+            rep.holds('R03.7', inst, where, '%d pairs, each summing to %d' % (len(pairs), order - 1))
+        else:
+            odd = [p_ for s_, ps in sums.items() if s_ != order - 1 for p_ in ps] or [p_ for p_ in pairs]
+            rep.violated('R03.7', inst, '%s:%s' % (f.file, odd[0][2]), 'pair (%d, %d) breaks the symmetry (sums found: %s): the filter no longer matches the reference resampler at this ratio' %
+                         (odd[0][0], odd[0][1], sorted(sums)), key='fir-pair:%d' % order)
+
+
 def check(rep, prog, tier):
     tables, digest = rfc.load()
     rep.extra['rfc_tables_parsed'] = len(tables)
@@ -531,6 +568,7 @@ def check(rep, prog, tier):
     r03_34(rep, prog, cmp_)
     r03_5(rep, prog, tables)
     r03_6(rep, prog)
+    r03_7(rep, prog)
     rep.extra['programs'] = rep.extra.get('programs', 0) + cmp_.n
     rep.extra['disagreements_checked'] = rep.extra.get('disagreements_checked', 0) + cmp_.bad
     rep.extra.setdefault('translation_samples', []).extend(cmp_.samples if prog.config == 'float' else [])
